@@ -39,16 +39,45 @@ theorem mem_names_setKV {α : Type} (l : List (Path × α)) (f k : Path) (x : α
   · rintro ⟨p, hp, rfl⟩
     exact Or.inr ⟨p, ⟨hp, by simpa using h⟩, rfl⟩
 
+theorem lookup_filter_key {α : Type} (l : List (Path × α)) (q : Path → Bool) (k : Path) :
+    List.lookup k (l.filter (fun p => q p.1)) = if q k then List.lookup k l else none := by
+  induction l with
+  | nil => simp
+  | cons p l ih =>
+    obtain ⟨a, b⟩ := p
+    by_cases hk : k = a
+    · subst hk
+      by_cases hq : q k = true
+      · simp [List.filter_cons, hq, List.lookup]
+      · simp [List.filter_cons, hq, ih]
+    · by_cases hq : q a = true
+      · simp [List.filter_cons, hq, List.lookup, beq_false_of_ne hk, ih]
+      · simp [List.filter_cons, hq, List.lookup, beq_false_of_ne hk, ih]
+
+theorem lookup_delKV_other {α : Type} (l : List (Path × α)) (f k : Path) (h : k ≠ f) :
+    (delKV l f).lookup k = l.lookup k := lookup_filter_ne l f k h
+
+theorem mem_names_delKV {α : Type} (l : List (Path × α)) (f k : Path) (h : k ≠ f) :
+    k ∈ names (delKV l f) ↔ k ∈ names l := by
+  simp only [names, delKV, List.mem_map, List.mem_filter]
+  constructor
+  · rintro ⟨p, ⟨hp, _⟩, rfl⟩; exact ⟨p, hp, rfl⟩
+  · rintro ⟨p, hp, rfl⟩; exact ⟨p, ⟨hp, by simpa using h⟩, rfl⟩
+
 theorem mem_names_setKV_self {α : Type} (l : List (Path × α)) (f : Path) (x : α) :
     f ∈ names (setKV l f x) := by
   simp [names, setKV]
 
 /-! ## the stability predicate and its frame lemmas -/
 
-/-- the durable view alone determines `k ↦ val`: entry and ancestors durable, contents synced -/
+/-- the durable view alone determines `k ↦ val`: no pending entry update, ancestors durable,
+    contents synced -/
 def Stable (fs : Fs) (k : Path) (val : Bytes) : Prop :=
   k ∈ names fs.vfiles ∧ fs.dcont.lookup k = some val ∧ fs.pendOf k = [] ∧
-  k ∈ fs.dents ∧ ∀ a ∈ ancestors k, a ∈ fs.ddirs
+  fs.altOf k = [] ∧ ∀ a ∈ ancestors k, a ∈ fs.ddirs
+
+/-- the path is durably absent -/
+def Absent (fs : Fs) (k : Path) : Prop := k ∉ names fs.vfiles ∧ fs.altOf k = []
 
 theorem stable_of_durableAs {fs : Fs} {k : Path} {val : Bytes} (h : durableAs fs k val = true) :
     Stable fs k val := by
@@ -57,10 +86,30 @@ theorem stable_of_durableAs {fs : Fs} {k : Path} {val : Bytes} (h : durableAs fs
   obtain ⟨⟨⟨⟨h1, h2⟩, h3⟩, h4⟩, h5⟩ := h
   exact ⟨h1, h2, h3, h4, h5⟩
 
-/-- an operation on file `f` (or on directories) leaves every other file's stability alone -/
+theorem absent_of_durablyAbsent {fs : Fs} {k : Path} (h : durablyAbsent fs k = true) : Absent fs k := by
+  simp only [durablyAbsent, Fs.isFile, Bool.and_eq_true, Bool.not_eq_true', List.contains_eq_mem,
+    decide_eq_false_iff_not, List.isEmpty_iff] at h
+  exact h
+
+/-- which paths an operation touches as files -/
+def touches : Op → List Path
+  | .creatTrunc f => [f]
+  | .write f _ => [f]
+  | .fsyncFile f => [f]
+  | .rename a b => [a, b]
+  | .unlink f => [f]
+  | _ => []
+
+theorem altOf_filter_parent (fs : Fs) (d k : Path) (h : fs.altOf k = []) :
+    ((fs.alt.filter (fun p => parent p.1 != d)).lookup k).getD [] = [] := by
+  rw [lookup_filter_key fs.alt (fun x => parent x != d) k]
+  split
+  · exact h
+  · rfl
+
+/-- an operation leaves the stability of every file it does not touch alone -/
 theorem stable_step (v : Variant) (fs : Fs) (op : Op) (k : Path) (val : Bytes)
-    (hk : ∀ f, (op = .creatTrunc f ∨ (∃ d, op = .write f d) ∨ op = .fsyncFile f) → k ≠ f)
-    (h : Stable fs k val) : Stable (fs.step v op) k val := by
+    (hk : k ∉ touches op) (h : Stable fs k val) : Stable (fs.step v op) k val := by
   obtain ⟨h1, h2, h3, h4, h5⟩ := h
   cases op with
   | begin _ _ => exact ⟨h1, h2, h3, h4, h5⟩
@@ -68,21 +117,22 @@ theorem stable_step (v : Variant) (fs : Fs) (op : Op) (k : Path) (val : Bytes)
   | mkdir d => exact ⟨h1, h2, h3, h4, h5⟩
   | close f => exact ⟨h1, h2, h3, h4, h5⟩
   | creatTrunc f =>
-    have hne : k ≠ f := hk f (Or.inl rfl)
+    have hne : k ≠ f := by simpa [touches] using hk
     simp only [Fs.step]
     split
     · refine ⟨(mem_names_setKV _ _ _ _ hne).mpr h1, h2, ?_, h4, h5⟩
       simpa [Fs.pendOf, lookup_setKV_other _ _ _ _ hne] using h3
-    · refine ⟨(mem_names_setKV _ _ _ _ hne).mpr h1, ?_, ?_, h4, h5⟩
+    · refine ⟨(mem_names_setKV _ _ _ _ hne).mpr h1, ?_, ?_, ?_, h5⟩
       · simpa [lookup_setKV_other _ _ _ _ hne] using h2
       · simpa [Fs.pendOf, lookup_setKV_other _ _ _ _ hne] using h3
+      · simpa [Fs.altOf, lookup_setKV_other _ _ _ _ hne] using h4
   | write f d =>
-    have hne : k ≠ f := hk f (Or.inr (Or.inl ⟨d, rfl⟩))
+    have hne : k ≠ f := by simpa [touches] using hk
     simp only [Fs.step]
     refine ⟨(mem_names_setKV _ _ _ _ hne).mpr h1, h2, ?_, h4, h5⟩
     simpa [Fs.pendOf, lookup_setKV_other _ _ _ _ hne] using h3
   | fsyncFile f =>
-    have hne : k ≠ f := hk f (Or.inr (Or.inr rfl))
+    have hne : k ≠ f := by simpa [touches] using hk
     have hd : (setKV fs.dcont f (fs.contOf f)).lookup k = some val := by
       rw [lookup_setKV_other _ _ _ _ hne]; exact h2
     have hp : ((setKV fs.pend f ([] : List Eff)).lookup k).getD [] = [] := by
@@ -90,51 +140,96 @@ theorem stable_step (v : Variant) (fs : Fs) (op : Op) (k : Path) (val : Bytes)
     cases v with
     | strict => exact ⟨h1, hd, hp, h4, h5⟩
     | journalled =>
-      exact ⟨h1, hd, hp, List.mem_cons_of_mem _ h4, fun a ha => List.mem_append_right _ (h5 a ha)⟩
+      refine ⟨h1, hd, hp, ?_, fun a ha => List.mem_append_right _ (h5 a ha)⟩
+      simpa [Fs.step, Fs.altOf, lookup_delKV_other _ _ _ hne] using h4
   | fsyncDir d =>
-    exact ⟨h1, h2, h3, List.mem_append_right _ h4, fun a ha => List.mem_append_right _ (h5 a ha)⟩
-
-/-- only `creatTrunc f` / `write f` add a file name, and only `f` -/
-theorem absent_step (v : Variant) (fs : Fs) (op : Op) (k : Path)
-    (hk : ∀ f, (op = .creatTrunc f ∨ (∃ d, op = .write f d) ∨ op = .fsyncFile f) → k ≠ f)
-    (h : k ∉ names fs.vfiles) : k ∉ names (fs.step v op).vfiles := by
-  cases op with
-  | begin _ _ => exact h
-  | ret => exact h
-  | mkdir d => exact h
-  | close f => exact h
-  | fsyncDir d => exact h
-  | creatTrunc f =>
-    have hne : k ≠ f := hk f (Or.inl rfl)
+    exact ⟨h1, h2, h3, altOf_filter_parent fs d k h4, fun a ha => List.mem_append_right _ (h5 a ha)⟩
+  | rename a b =>
+    have hne : k ≠ a ∧ k ≠ b := by simpa [touches] using hk
     simp only [Fs.step]
-    split <;> exact fun hc => h ((mem_names_setKV _ _ _ _ hne).mp hc)
+    refine ⟨?_, ?_, ?_, ?_, h5⟩
+    · exact (mem_names_setKV _ _ _ _ hne.2).mpr ((mem_names_delKV _ _ _ hne.1).mpr h1)
+    · rw [lookup_setKV_other _ _ _ _ hne.2, lookup_delKV_other _ _ _ hne.1]; exact h2
+    · simp only [Fs.pendOf]
+      rw [lookup_setKV_other _ _ _ _ hne.2, lookup_delKV_other _ _ _ hne.1]; exact h3
+    · simp only [Fs.altOf]
+      rw [lookup_setKV_other _ _ _ _ hne.2, lookup_setKV_other _ _ _ _ hne.1]; exact h4
+  | unlink f =>
+    have hne : k ≠ f := by simpa [touches] using hk
+    simp only [Fs.step]
+    refine ⟨(mem_names_delKV _ _ _ hne).mpr h1, ?_, ?_, ?_, h5⟩
+    · rw [lookup_delKV_other _ _ _ hne]; exact h2
+    · simp only [Fs.pendOf]; rw [lookup_delKV_other _ _ _ hne]; exact h3
+    · simp only [Fs.altOf]; rw [lookup_setKV_other _ _ _ _ hne]; exact h4
+
+/-- … and the durable absence of every path it does not touch -/
+theorem absent_step (v : Variant) (fs : Fs) (op : Op) (k : Path)
+    (hk : k ∉ touches op) (h : Absent fs k) : Absent (fs.step v op) k := by
+  obtain ⟨h1, h2⟩ := h
+  cases op with
+  | begin _ _ => exact ⟨h1, h2⟩
+  | ret => exact ⟨h1, h2⟩
+  | mkdir d => exact ⟨h1, h2⟩
+  | close f => exact ⟨h1, h2⟩
+  | fsyncDir d => exact ⟨h1, altOf_filter_parent fs d k h2⟩
+  | creatTrunc f =>
+    have hne : k ≠ f := by simpa [touches] using hk
+    simp only [Fs.step]
+    split
+    · exact ⟨fun hc => h1 ((mem_names_setKV _ _ _ _ hne).mp hc), h2⟩
+    · refine ⟨fun hc => h1 ((mem_names_setKV _ _ _ _ hne).mp hc), ?_⟩
+      simpa [Fs.altOf, lookup_setKV_other _ _ _ _ hne] using h2
   | write f d =>
-    have hne : k ≠ f := hk f (Or.inr (Or.inl ⟨d, rfl⟩))
-    exact fun hc => h ((mem_names_setKV _ _ _ _ hne).mp hc)
+    have hne : k ≠ f := by simpa [touches] using hk
+    exact ⟨fun hc => h1 ((mem_names_setKV _ _ _ _ hne).mp hc), h2⟩
   | fsyncFile f =>
-    cases v <;> exact h
+    have hne : k ≠ f := by simpa [touches] using hk
+    cases v with
+    | strict => exact ⟨h1, h2⟩
+    | journalled =>
+      refine ⟨h1, ?_⟩
+      simpa [Fs.step, Fs.altOf, lookup_delKV_other _ _ _ hne] using h2
+  | rename a b =>
+    have hne : k ≠ a ∧ k ≠ b := by simpa [touches] using hk
+    simp only [Fs.step]
+    refine ⟨fun hc => h1 ((mem_names_delKV _ _ _ hne.1).mp ((mem_names_setKV _ _ _ _ hne.2).mp hc)), ?_⟩
+    simp only [Fs.altOf]
+    rw [lookup_setKV_other _ _ _ _ hne.2, lookup_setKV_other _ _ _ _ hne.1]; exact h2
+  | unlink f =>
+    have hne : k ≠ f := by simpa [touches] using hk
+    simp only [Fs.step]
+    refine ⟨fun hc => h1 ((mem_names_delKV _ _ _ hne).mp hc), ?_⟩
+    simp only [Fs.altOf]; rw [lookup_setKV_other _ _ _ _ hne]; exact h2
 
 /-! ## crash images -/
 
 theorem fileChoices_stable {fs : Fs} {k : Path} {val : Bytes} (h : Stable fs k val) :
     fileChoices fs k = [some val] := by
-  obtain ⟨_, h2, h3, h4, _⟩ := h
-  simp [fileChoices, h2, h3, h4, contentChoices]
+  obtain ⟨h1, h2, h3, h4, _⟩ := h
+  simp [fileChoices, Fs.isFile, h1, h2, h3, h4, contentChoices]
 
-theorem crashFiles_absent (fs : Fs) (k : Path) :
-    ∀ (l : List Path), k ∉ l → ∀ F ∈ crashFiles fs l, F.lookup k = none := by
+theorem fileChoices_absent {fs : Fs} {k : Path} (h : Absent fs k) : fileChoices fs k = [none] := by
+  obtain ⟨h1, h2⟩ := h
+  simp [fileChoices, Fs.isFile, h1, h2]
+
+theorem crashFiles_absent (fs : Fs) (k : Path) (hc : fileChoices fs k = [none]) :
+    ∀ (l : List Path), ∀ F ∈ crashFiles fs l, F.lookup k = none := by
   intro l
   induction l with
-  | nil => intro _ F hF; simp [crashFiles] at hF; subst hF; rfl
+  | nil => intro F hF; simp [crashFiles] at hF; subst hF; rfl
   | cons f rest ih =>
-    intro hk F hF
+    intro F hF
     simp only [crashFiles, List.mem_flatMap, List.mem_map] at hF
-    obtain ⟨o, _, r, hr, rfl⟩ := hF
-    have hkf : k ≠ f := fun e => hk (e ▸ List.mem_cons_self)
-    have hkr : k ∉ rest := fun e => hk (List.mem_cons_of_mem _ e)
-    cases o with
-    | none => exact ih hkr r hr
-    | some b => simp [List.lookup, beq_false_of_ne hkf, ih hkr r hr]
+    obtain ⟨o, ho, r, hr, rfl⟩ := hF
+    by_cases hkf : k = f
+    · subst hkf
+      rw [hc] at ho
+      simp at ho
+      subst ho
+      exact ih r hr
+    · cases o with
+      | none => exact ih r hr
+      | some b => simp [List.lookup, beq_false_of_ne hkf, ih r hr]
 
 theorem crashFiles_stable (fs : Fs) (k : Path) (val : Bytes) (hc : fileChoices fs k = [some val]) :
     ∀ (l : List Path), k ∈ l → ∀ F ∈ crashFiles fs l, F.lookup k = some val := by
@@ -175,31 +270,33 @@ theorem recover_stable {fs : Fs} {k : Path} {val : Bytes} (h : Stable fs k val) 
     simp only [List.all_eq_true, List.contains_eq_mem, decide_eq_true_eq]
     exact fun a ha => dirChoices_keep fs D hD a (h.2.2.2.2 a ha)
   simp only [recover, hanc, if_true]
-  exact crashFiles_stable fs k val (fileChoices_stable h) _ h.1 F hF
+  exact crashFiles_stable fs k val (fileChoices_stable h) _ (List.mem_append_left _ h.1) F hF
 
-/-- a key that has no file reads as missing on every crash image -/
-theorem recover_absent {fs : Fs} {k : Path} (h : k ∉ names fs.vfiles) :
+/-- a durably absent path reads as missing on every crash image -/
+theorem recover_absent {fs : Fs} {k : Path} (h : Absent fs k) :
     ∀ c ∈ crash fs, recover c k = none := by
   intro c hc
   simp only [crash, List.mem_flatMap, List.mem_map] at hc
   obtain ⟨D, _, F, hF, rfl⟩ := hc
   simp only [recover]
   split
-  · exact crashFiles_absent fs k _ h F hF
+  · exact crashFiles_absent fs k (fileChoices_absent h) _ F hF
   · rfl
 
 /-! ## the invariant -/
 
-/-- every key other than the one being written is exactly where the completed sets left it -/
+/-- every key other than the one being written (and other than the scratch files of the set in
+    progress) is exactly where the completed sets left it; scratch paths hold no completed key -/
 def Inv (s : St) : Prop :=
-  ∀ k, curKey s ≠ some k →
+  (∀ k, curKey s ≠ some k → k ∉ s.scratch →
     match s.done.lookup k with
     | some val => Stable s.fs k val
-    | none => k ∉ names s.fs.vfiles
+    | none => Absent s.fs k) ∧
+  (∀ p ∈ s.scratch, s.done.lookup p = none)
 
 theorem inv_init : Inv init := by
-  intro k _
-  simp [init, names]
+  refine ⟨fun k _ _ => ?_, fun p hp => by simp [init] at hp⟩
+  simp [init, names, Absent, Fs.altOf]
 
 theorem lookup_cons_ite {α : Type} (k a : Path) (b : α) (l : List (Path × α)) :
     List.lookup k ((a, b) :: l) = if k = a then some b else List.lookup k l := by
@@ -207,80 +304,132 @@ theorem lookup_cons_ite {α : Type} (k a : Path) (b : α) (l : List (Path × α)
   · simp [List.lookup, h]
   · simp [List.lookup, h, beq_false_of_ne h]
 
+/-- frame step shared by all file-system operations -/
+theorem inv_frame (v : Variant) (s : St) (op : Op) (hnb : ∀ k val, op ≠ .begin k val) (hnr : op ≠ .ret)
+    (h : Inv s)
+    (hscr : ∀ p ∈ scratchStep (curKey s) s.scratch op, p ∈ s.scratch ∨ s.done.lookup p = none)
+    (htouch : ∀ k, curKey s ≠ some k → k ∉ scratchStep (curKey s) s.scratch op → k ∉ touches op ∧ k ∉ s.scratch) :
+    Inv (step v s op) := by
+  have hstep : step v s op = { s with fs := s.fs.step v op, scratch := scratchStep (curKey s) s.scratch op } := by
+    cases op <;> first | rfl | exact absurd rfl (hnb _ _) | exact absurd rfl hnr
+  rw [hstep]
+  refine ⟨fun k hk hks => ?_, fun p hp => ?_⟩
+  · obtain ⟨ht, hs⟩ := htouch k hk hks
+    have := h.1 k hk hs
+    simp only at this ⊢
+    split at this
+    · next val heq => exact stable_step v _ _ _ _ ht this
+    · next heq => exact absent_step v _ _ _ ht this
+  · rcases hscr p hp with h1 | h1
+    · exact h.2 p h1
+    · exact h1
+
 theorem inv_step (v : Variant) (s : St) (op : Op) (hok : ok s op = true) (h : Inv s) :
     Inv (step v s op) := by
   cases op with
   | begin k0 val0 =>
-    -- nothing was in progress, so the invariant held for every key
-    simp only [ok, Bool.and_eq_true, Option.isNone_iff_eq_none] at hok
-    have hcur : s.cur = none := hok.1.1.1.1
-    intro k _
-    have := h k (by simp [curKey, hcur])
-    simpa [step] using this
+    simp only [ok, Bool.and_eq_true, Option.isNone_iff_eq_none, List.isEmpty_iff] at hok
+    have hcur : s.cur = none := hok.1.1.1.1.1
+    have hscr : s.scratch = [] := hok.2
+    refine ⟨fun k _ _ => ?_, fun p hp => ?_⟩
+    · have := h.1 k (by simp [curKey, hcur]) (by simp [hscr])
+      simpa [step] using this
+    · simp [step, hscr] at hp
   | ret =>
     cases hc : s.cur with
     | none => simp [ok, hc] at hok
     | some kv =>
       obtain ⟨k0, val0⟩ := kv
-      simp only [ok, hc, Bool.and_eq_true] at hok
-      have hst : Stable s.fs k0 val0 := stable_of_durableAs hok.2
-      intro k _
+      simp only [ok, hc, Bool.and_eq_true, List.all_eq_true] at hok
+      have hst : Stable s.fs k0 val0 := stable_of_durableAs hok.1.2
+      refine ⟨fun k _ _ => ?_, fun p hp => by simp [step, hc] at hp⟩
       simp only [step, hc, lookup_cons_ite]
       by_cases hk : k = k0
       · subst hk; simpa using hst
-      · have := h k (by simp [curKey, hc]; exact fun e => hk e.symm)
-        simpa [hk] using this
+      · simp only [hk, if_false]
+        by_cases hs : k ∈ s.scratch
+        · rw [h.2 k hs]
+          exact absent_of_durablyAbsent (hok.2 k hs)
+        · exact h.1 k (by simp [curKey, hc]; exact fun e => hk e.symm) hs
   | mkdir d =>
-    intro k hk
-    have := h k hk
-    simp only [step] at this ⊢
-    split at this
-    · next val heq => exact stable_step v _ _ _ _ (by simp) this
-    · next heq => exact absent_step v _ _ _ (by simp) this
+    exact inv_frame v s _ (by simp) (by simp) h (fun p hp => Or.inl hp)
+      (fun k _ hks => ⟨by simp [touches], hks⟩)
   | close f =>
-    intro k hk
-    have := h k hk
-    simp only [step] at this ⊢
-    split at this
-    · next val heq => exact stable_step v _ _ _ _ (by simp) this
-    · next heq => exact absent_step v _ _ _ (by simp) this
+    exact inv_frame v s _ (by simp) (by simp) h (fun p hp => Or.inl hp)
+      (fun k _ hks => ⟨by simp [touches], hks⟩)
   | fsyncDir d =>
-    intro k hk
-    have := h k hk
-    simp only [step] at this ⊢
-    split at this
-    · next val heq => exact stable_step v _ _ _ _ (by simp) this
-    · next heq => exact absent_step v _ _ _ (by simp) this
+    exact inv_frame v s _ (by simp) (by simp) h (fun p hp => Or.inl hp)
+      (fun k _ hks => ⟨by simp [touches], hks⟩)
   | creatTrunc f =>
-    simp only [ok, Bool.and_eq_true, beq_iff_eq] at hok
-    have hcf : curKey s = some f := hok.1.1.1
-    intro k hk
-    have hkf : k ≠ f := fun e => hk (by simpa [step, curKey, e] using hcf)
-    have := h k (by simpa [step, curKey] using hk)
-    simp only [step] at this ⊢
-    split at this
-    · next val heq => exact stable_step v _ _ _ _ (by simpa using hkf) this
-    · next heq => exact absent_step v _ _ _ (by simpa using hkf) this
+    simp only [ok, Bool.and_eq_true, Bool.or_eq_true, Option.isNone_iff_eq_none] at hok
+    have hall := hok.1.1.1.2
+    refine inv_frame v s _ (by simp) (by simp) h ?_ ?_
+    · intro p hp
+      simp only [scratchStep] at hp
+      split at hp
+      · exact Or.inl hp
+      · next hna =>
+        rcases List.mem_cons.mp hp with rfl | hp'
+        · rcases hall with ha | hd
+          · exact absurd (by simpa [allowed] using ha) hna
+          · exact Or.inr hd
+        · exact Or.inl hp'
+    · intro k hk hks
+      simp only [scratchStep] at hks
+      split at hks
+      · next ha =>
+        refine ⟨?_, hks⟩
+        simp only [touches, List.mem_singleton]
+        rintro rfl
+        simp only [Bool.or_eq_true, beq_iff_eq, List.contains_eq_mem, decide_eq_true_eq] at ha
+        rcases ha with ha | ha
+        · exact hk ha
+        · exact hks ha
+      · refine ⟨?_, fun e => hks (List.mem_cons_of_mem _ e)⟩
+        simp only [touches, List.mem_singleton]
+        rintro rfl
+        exact hks List.mem_cons_self
   | write f d =>
-    simp only [ok, Bool.and_eq_true, beq_iff_eq] at hok
-    have hcf : curKey s = some f := hok.1
-    intro k hk
-    have hkf : k ≠ f := fun e => hk (by simpa [step, curKey, e] using hcf)
-    have := h k (by simpa [step, curKey] using hk)
-    simp only [step] at this ⊢
-    split at this
-    · next val heq => exact stable_step v _ _ _ _ (by simpa using hkf) this
-    · next heq => exact absent_step v _ _ _ (by simpa using hkf) this
+    simp only [ok, allowed, Bool.and_eq_true, Bool.or_eq_true, beq_iff_eq, List.contains_eq_mem,
+      decide_eq_true_eq] at hok
+    refine inv_frame v s _ (by simp) (by simp) h (fun p hp => Or.inl hp) (fun k hk hks => ⟨?_, hks⟩)
+    simp only [touches, List.mem_singleton]
+    rintro rfl
+    rcases hok.1 with ha | ha
+    · exact hk ha
+    · exact hks ha
   | fsyncFile f =>
-    simp only [ok, Bool.and_eq_true, beq_iff_eq] at hok
-    have hcf : curKey s = some f := hok.1
-    intro k hk
-    have hkf : k ≠ f := fun e => hk (by simpa [step, curKey, e] using hcf)
-    have := h k (by simpa [step, curKey] using hk)
-    simp only [step] at this ⊢
-    split at this
-    · next val heq => exact stable_step v _ _ _ _ (by simpa using hkf) this
-    · next heq => exact absent_step v _ _ _ (by simpa using hkf) this
+    simp only [ok, allowed, Bool.and_eq_true, Bool.or_eq_true, beq_iff_eq, List.contains_eq_mem,
+      decide_eq_true_eq] at hok
+    refine inv_frame v s _ (by simp) (by simp) h (fun p hp => Or.inl hp) (fun k hk hks => ⟨?_, hks⟩)
+    simp only [touches, List.mem_singleton]
+    rintro rfl
+    rcases hok.1 with ha | ha
+    · exact hk ha
+    · exact hks ha
+  | unlink f =>
+    simp only [ok, allowed, Bool.and_eq_true, Bool.or_eq_true, beq_iff_eq, List.contains_eq_mem,
+      decide_eq_true_eq] at hok
+    refine inv_frame v s _ (by simp) (by simp) h (fun p hp => Or.inl hp) (fun k hk hks => ⟨?_, hks⟩)
+    simp only [touches, List.mem_singleton]
+    rintro rfl
+    rcases hok.1.1 with ha | ha
+    · exact hk ha
+    · exact hks ha
+  | rename a b =>
+    simp only [ok, allowed, Bool.and_eq_true, Bool.or_eq_true, beq_iff_eq, List.contains_eq_mem,
+      decide_eq_true_eq] at hok
+    have ha := hok.1.1.1.1.1.1.1
+    have hb := hok.1.1.1.1.1.1.2
+    refine inv_frame v s _ (by simp) (by simp) h (fun p hp => Or.inl hp) (fun k hk hks => ⟨?_, hks⟩)
+    simp only [touches, List.mem_cons, List.mem_singleton, List.not_mem_nil, or_false]
+    rintro (rfl | rfl)
+    · rcases ha with h1 | h1
+      · exact hk h1
+      · exact hks h1
+    · rcases hb with h1 | h1
+      · exact hk h1
+      · exact hks h1
 
 theorem inv_runWF (v : Variant) : ∀ (tr : List Op) (s s' : St),
     runWF v s tr = some s' → Inv s → Inv s' := by
@@ -306,6 +455,53 @@ theorem runWF_eq_run (v : Variant) : ∀ (tr : List Op) (s s' : St),
     · simpa [run] using ih _ _ h
     · cases h
 
+/-- along a well-formed run, scratch paths exist only while a set is in progress -/
+theorem scratch_nil_of_idle (v : Variant) : ∀ (tr : List Op) (s s' : St),
+    runWF v s tr = some s' → (s.cur = none → s.scratch = []) → s'.cur = none → s'.scratch = [] := by
+  intro tr
+  induction tr with
+  | nil => intro s s' h hi hc; simp [runWF] at h; subst h; exact hi hc
+  | cons op tr ih =>
+    intro s s' h hi hc
+    simp only [runWF] at h
+    split at h
+    · next hok =>
+      refine ih _ _ h ?_ hc
+      intro hc1
+      cases op with
+      | begin k val => simp [step] at hc1
+      | ret => cases hcs : s.cur <;> simp [step, hcs]
+      | mkdir d =>
+        have : s.cur = none := by simpa [step] using hc1
+        simp [ok, this] at hok
+      | creatTrunc f =>
+        have : s.cur = none := by simpa [step] using hc1
+        simp [ok, this] at hok
+      | fsyncDir d =>
+        have : s.cur = none := by simpa [step] using hc1
+        simp [ok, this] at hok
+      | write f d =>
+        have hn : s.cur = none := by simpa [step] using hc1
+        have := hi hn
+        simp [ok, allowed, curKey, hn, this] at hok
+      | fsyncFile f =>
+        have hn : s.cur = none := by simpa [step] using hc1
+        have := hi hn
+        simp [ok, allowed, curKey, hn, this] at hok
+      | close f =>
+        have hn : s.cur = none := by simpa [step] using hc1
+        have := hi hn
+        simp [ok, allowed, curKey, hn, this] at hok
+      | unlink f =>
+        have hn : s.cur = none := by simpa [step] using hc1
+        have := hi hn
+        simp [ok, allowed, curKey, hn, this] at hok
+      | rename a b =>
+        have hn : s.cur = none := by simpa [step] using hc1
+        have := hi hn
+        simp [ok, allowed, curKey, hn, this] at hok
+    · cases h
+
 /-- well-formedness is prefix closed -/
 theorem runWF_append (v : Variant) : ∀ (pre suf : List Op) (s : St),
     (runWF v s (pre ++ suf)).isSome = true → (runWF v s pre).isSome = true := by
@@ -322,32 +518,25 @@ theorem runWF_append (v : Variant) : ∀ (pre suf : List Op) (s : St),
 theorem WF_prefix (v : Variant) (pre suf : List Op) (h : WF v (pre ++ suf) = true) :
     WF v pre = true := runWF_append v pre suf init h
 
-/-- the machine's ghost fields are the begin/ret bookkeeping of the trace, nothing else -/
+/-- the machine's ghost fields are the begin/ret/creat bookkeeping of the trace, nothing else -/
+theorem ghostStep_step (v : Variant) (s : St) (op : Op) :
+    ghostStep ⟨s.cur, s.done, s.scratch⟩ op =
+      ⟨(step v s op).cur, (step v s op).done, (step v s op).scratch⟩ := by
+  cases op <;> first
+    | rfl
+    | (cases hc : s.cur <;> simp [ghostStep, step, hc])
+
 theorem ghost_run (v : Variant) : ∀ (tr : List Op) (s : St),
-    ghost (s.cur, s.done) tr = ((run v s tr).cur, (run v s tr).done) := by
+    ghost ⟨s.cur, s.done, s.scratch⟩ tr =
+      ⟨(run v s tr).cur, (run v s tr).done, (run v s tr).scratch⟩ := by
   intro tr
   induction tr with
   | nil => intro s; rfl
   | cons op tr ih =>
     intro s
-    cases op with
-    | begin k val => simpa [ghost, run, step] using ih (step v s (.begin k val))
-    | ret =>
-      cases hc : s.cur with
-      | none =>
-        have := ih (step v s .ret)
-        simp [step, hc] at this
-        simpa [ghost, run, step, hc] using this
-      | some kv =>
-        have := ih (step v s .ret)
-        simp only [step, hc] at this
-        simpa [ghost, run, step, hc] using this
-    | mkdir d => simpa [ghost, run, step] using ih (step v s (.mkdir d))
-    | creatTrunc f => simpa [ghost, run, step] using ih (step v s (.creatTrunc f))
-    | write f d => simpa [ghost, run, step] using ih (step v s (.write f d))
-    | fsyncFile f => simpa [ghost, run, step] using ih (step v s (.fsyncFile f))
-    | fsyncDir d => simpa [ghost, run, step] using ih (step v s (.fsyncDir d))
-    | close f => simpa [ghost, run, step] using ih (step v s (.close f))
+    simp only [ghost, run, List.foldl_cons] at ih ⊢
+    rw [ghostStep_step v s op]
+    exact ih (step v s op)
 
 /-! ------------------------------------------------------------------------------------------
   ## Property theorems
@@ -358,27 +547,31 @@ def crashAfter (v : Variant) (pre : List Op) : List Image := crash (run v init p
 
 /-- **C17, core form.**  For every well-formed trace (any number of sets, any keys and values),
     every prefix of it (= every crash instant), every crash image of that prefix under either
-    persistence variant, and every key other than the one whose set is in progress: a fresh store
+    persistence variant, and every key other than the one whose set is in progress (and other
+    than a scratch file that set has created — none for the in-place write path): a fresh store
     reads exactly the last completed value of the key, or "missing" (`:undefined`, never a
     failure) if no set of it has completed. -/
 theorem crash_safety_core (v : Variant) (tr pre suf : List Op) (htr : tr = pre ++ suf)
     (hwf : WF v tr = true) :
-    ∀ c ∈ crashAfter v pre, ∀ k, inProgress pre ≠ some k → recover c k = lastCompleted pre k := by
+    ∀ c ∈ crashAfter v pre, ∀ k, inProgress pre ≠ some k → k ∉ scratchOf pre →
+      recover c k = lastCompleted pre k := by
   subst htr
   have hpre : (runWF v init pre).isSome = true := WF_prefix v pre suf hwf
   obtain ⟨s, hs⟩ := Option.isSome_iff_exists.mp hpre
   have hrun : s = run v init pre := runWF_eq_run v pre init s hs
   have hinv : Inv s := inv_runWF v pre init s hs inv_init
-  have hg : ghost (none, []) pre = (s.cur, s.done) := by
+  have hg : ghost {} pre = ⟨s.cur, s.done, s.scratch⟩ := by
     rw [hrun]; exact ghost_run v pre init
-  intro c hc k hk
+  intro c hc k hk hks
   simp only [crashAfter, ← hrun] at hc
   have hcur : curKey s ≠ some k := by
     simpa [inProgress, curKey, hg] using hk
+  have hscr : k ∉ s.scratch := by
+    simpa [scratchOf, hg] using hks
   have hdone : lastCompleted pre k = s.done.lookup k := by
     simp [lastCompleted, hg]
   rw [hdone]
-  have := hinv k hcur
+  have := hinv.1 k hcur hscr
   split at this
   · next val heq => rw [heq]; exact recover_stable this c hc
   · next heq => rw [heq]; exact recover_absent this c hc
@@ -387,16 +580,32 @@ theorem crash_safety_core (v : Variant) (tr pre suf : List Op) (htr : tr = pre +
     not currently being rewritten, reads its last completed value on every crash image of every
     later instant; (2) an interrupted set harms no other key: every key other than the one in
     progress reads what it read before the set started — its last completed value, or missing —
-    and the read never fails. -/
+    and the read never fails.  (`k ∉ scratchOf pre`: the set in progress may own temp files; a
+    well-formed set has removed them durably by the time it returns.) -/
 theorem crash_safety (v : Variant) (tr : List Op) (hwf : WF v tr = true)
     (pre suf : List Op) (htr : tr = pre ++ suf) (c : Image) (hc : c ∈ crashAfter v pre) :
-    (∀ k val, lastCompleted pre k = some val → inProgress pre ≠ some k → recover c k = some val) ∧
-    (∀ k, inProgress pre ≠ some k → lastCompleted pre k = none → recover c k = none) := by
+    (∀ k val, lastCompleted pre k = some val → inProgress pre ≠ some k → k ∉ scratchOf pre →
+      recover c k = some val) ∧
+    (∀ k, inProgress pre ≠ some k → k ∉ scratchOf pre → lastCompleted pre k = none →
+      recover c k = none) := by
   constructor
-  · intro k val h1 h2
-    rw [crash_safety_core v tr pre suf htr hwf c hc k h2, h1]
-  · intro k h2 h1
-    rw [crash_safety_core v tr pre suf htr hwf c hc k h2, h1]
+  · intro k val h1 h2 h3
+    rw [crash_safety_core v tr pre suf htr hwf c hc k h2 h3, h1]
+  · intro k h2 h3 h1
+    rw [crash_safety_core v tr pre suf htr hwf c hc k h2 h3, h1]
+
+/-- between sets there are no scratch paths -/
+theorem scratchOf_idle (v : Variant) (pre suf : List Op) (hwf : WF v (pre ++ suf) = true)
+    (hidle : inProgress pre = none) : scratchOf pre = [] := by
+  have hpre : (runWF v init pre).isSome = true := WF_prefix v pre suf hwf
+  obtain ⟨s, hs⟩ := Option.isSome_iff_exists.mp hpre
+  have hrun : s = run v init pre := runWF_eq_run v pre init s hs
+  have hg : ghost {} pre = ⟨s.cur, s.done, s.scratch⟩ := by
+    rw [hrun]; exact ghost_run v pre init
+  have hcur : s.cur = none := by simpa [inProgress, hg] using hidle
+  simp only [scratchOf, hg]
+  -- `cur = none` is reached only by `ret` (which clears scratch) or initially
+  exact scratch_nil_of_idle v pre init s hs (fun _ => rfl) hcur
 
 /-- once a set has returned (the trace up to and including its `ret`), its value is what every
     crash image reads until another set of the same key begins -/
@@ -405,7 +614,9 @@ theorem completed_set_is_durable (v : Variant) (tr : List Op) (hwf : WF v tr = t
     (hdone : lastCompleted pre k = some val) (hidle : inProgress pre = none) :
     ∀ c ∈ crashAfter v pre, recover c k = some val := by
   intro c hc
-  exact (crash_safety v tr hwf pre suf htr c hc).1 k val hdone (by simp [hidle])
+  subst htr
+  exact (crash_safety v _ hwf pre suf rfl c hc).1 k val hdone (by simp [hidle])
+    (by simp [scratchOf_idle v pre suf hwf hidle])
 
 /-! ### non-vacuity and witnesses -/
 
@@ -449,5 +660,40 @@ theorem pinned_new_key_can_vanish_strict :
     WF .journalled (demoPinnedDirect.take 7) = true ∧
     lastCompleted (demoPinnedDirect.take 7) [1, 2] = some [10, 11, 12] ∧
     ∃ c ∈ crashAfter .strict (demoPinnedDirect.take 7), recover c [1, 2] = none := by decide
+
+/-! ### rename (the write-temp-then-replace idiom) -/
+
+/-- key `1` written through temp file `9`: first set creates the key (directory synced after the
+    rename), second set overwrites it WITHOUT syncing the directory after the rename -/
+def demoRenameBad : List Op :=
+  [.begin [1] [10], .creatTrunc [9], .write [9] [10], .fsyncFile [9], .close [9], .rename [9] [1],
+   .fsyncDir [], .ret,
+   .begin [1] [20], .creatTrunc [9], .write [9] [20], .fsyncFile [9], .close [9], .rename [9] [1], .ret]
+
+/-- the same with the directory synced after every rename -/
+def demoRenameGood : List Op :=
+  [.begin [1] [10], .creatTrunc [9], .write [9] [10], .fsyncFile [9], .close [9], .rename [9] [1],
+   .fsyncDir [], .ret,
+   .begin [1] [20], .creatTrunc [9], .write [9] [20], .fsyncFile [9], .close [9], .rename [9] [1],
+   .fsyncDir [], .ret]
+
+/-- write-temp + fsync + rename WITHOUT the directory fsync loses a completed overwrite: the set
+    has returned, the trace is not well-formed (under either variant), and there is a crash image
+    on which the key reads its PREVIOUS value -/
+theorem rename_without_dir_fsync_loses_completed_overwrite :
+    WF .strict demoRenameBad = false ∧ WF .journalled demoRenameBad = false ∧
+    WF .strict (demoRenameBad.take 8) = true ∧
+    inProgress demoRenameBad = none ∧ lastCompleted demoRenameBad [1] = some [20] ∧
+    ∃ c ∈ crashAfter .strict demoRenameBad, recover c [1] = some [10] := by decide
+
+/-- with the directory fsync the idiom is well-formed (the model and `WF` accept traces with
+    rename), the temp file is a scratch path while the set runs, and at every instant of the
+    overwrite the key reads the old or the new value — never a torn one -/
+theorem rename_with_dir_fsync_wf :
+    WF .strict demoRenameGood = true ∧ scratchOf (demoRenameGood.take 12) = [[9]] ∧
+    scratchOf demoRenameGood = [] ∧
+    (∀ n ∈ List.range 9, ∀ c ∈ crashAfter .strict (demoRenameGood.take (8 + n)),
+      recover c [1] = some [10] ∨ recover c [1] = some [20]) ∧
+    ∀ c ∈ crashAfter .strict demoRenameGood, recover c [1] = some [20] := by decide
 
 end Klong.C17
